@@ -157,8 +157,11 @@ func c12Step(s c12St, in c12Op, out c12Res, queue bool) (bool, c12St) {
 		return true, s
 	case c12OpWrite:
 		k := int(s.HConn[in.H])
-		if k == 0 || s.HClosed[in.H] || s.MuxClosed || s.CClosed[k-1] || !s.CReg[k-1] {
-			return true, s // no effect: closed handle / dead, removed connection
+		if k == 0 || !out.OK || s.MuxClosed || s.CClosed[k-1] || !s.CReg[k-1] {
+			// no effect: the write failed (closed handle, closed connection) or the connection was removed.
+			// A write that was pending when its handle was closed and still went out counts as a write of
+			// the connection (which lives on through the sibling handles).
+			return true, s
 		}
 		s.Bind[in.A] = int8(k)
 		return true, s
